@@ -1272,9 +1272,12 @@ def mon_c13(w, F, vd):
                     continue
                 n_out += 1
             bound = n_out + len(notif_pending) + len(connack_timers) + n_ka
-            if len(e.d["pending"]) > bound:
+            # timers due in this very instant (within a microsecond) are about to run; a real reactor would not
+            # have stopped between them
+            n_pending = len([t for t, _ in e.d["pending"] if t > now + 1e-6])
+            if n_pending > bound:
                 vd.bad("C13.stray_timer", "%d timers pending; justified: %d unacknowledged packets + %d notifications + %d CONNACK timers + %d keepalive" % (
-                    len(e.d["pending"]), n_out, len(notif_pending), len(connack_timers), n_ka))
+                    n_pending, n_out, len(notif_pending), len(connack_timers), n_ka))
                 break
     if any(e.k == "lost" for e in w.log):
         vd.label("c13:loss")
@@ -1311,6 +1314,7 @@ def mon_c15(w, F, vd):
         t_up = None
         t_end = None
         end_ei = None
+        lost_e = None
         aborts = []
         for e in w.log:
             if e.c != conn.idx:
@@ -1328,12 +1332,14 @@ def mon_c15(w, F, vd):
             elif e.k == "lost":
                 if t_end is None:
                     t_end, end_ei = e.t, e.i
-                for (pi, pt, wh) in pings:
-                    if pi > e.i:
-                        vd.bad("C15.ping_after_loss", "PINGREQ written after the connection was lost")
-                for a in aborts:
-                    if a.i > e.i:
-                        vd.bad("C15.abort_after_loss", "keepalive closed a transport whose connection was already lost")
+                lost_e = e
+        if lost_e is not None:
+            if any(pi > lost_e.i for (pi, pt, wh) in pings):
+                vd.bad("C15.ping_after_loss", "PINGREQ written after the connection was lost")
+            # (a CONNACK timeout left running by a loss during the handshake is tolerated by C13's statement;
+            # only an established connection has keepalive timers)
+            if t_up is not None and any(a.i > lost_e.i and a.t > lost_e.t + 1e-6 for a in aborts):
+                vd.bad("C15.abort_after_loss", "keepalive closed a transport whose connection was already lost")
         if k == 0:
             if pings:
                 vd.bad("C15.ping_with_keepalive_0", "PINGREQ written although keepalive is 0")
